@@ -73,8 +73,16 @@ func mutate(rng *rand.Rand, s string, p, pAmb float64) string {
 func init() {
 	randGens["snps"] = func(rng *rand.Rand, i int) map[string]interface{} {
 		w := 5 + rng.Intn(120)
+		long := i%25 == 7 // rows of several kilobytes among short ones: a writer that buffers must keep them in place
+		if long {
+			w = 1200 + rng.Intn(300)
+		}
 		ref := randSeq(rng, w, 0.1)
 		nq := 1 + rng.Intn(30)
+		if long {
+			ref = randSeq(rng, w, 0.0)
+			nq = 3 + rng.Intn(3)
+		}
 		qs := make([]interface{}, nq)
 		// a few shared mutations so that aggregate frequencies are interesting
 		base := mutate(rng, ref, 0.05, 0.2)
@@ -84,6 +92,13 @@ func init() {
 				src = base
 			}
 			qs[k] = symList(mutate(rng, src, 0.08, 0.4))
+			if long && k == 1 {
+				b := []byte(ref)
+				for j := range b {
+					b[j] = "ACGT"[(strings.IndexByte("ACGT", b[j])+1)%4]
+				}
+				qs[k] = symList(string(b))
+			}
 		}
 		thr := -1
 		if rng.Intn(2) == 0 {
@@ -194,8 +209,10 @@ func init() {
 				d = []int{0, 50, 100, 125, 200, 250, 500}[rng.Intn(7)]
 			}
 		}
+		// layout must not matter: targets (and queries) wrapped over several lines, CRLF
 		return map[string]interface{}{"id": "rand6-" + itoa(i), "queries": qs, "targets": ts,
-			"measure": measure, "n": n, "d": d, "table": rng.Intn(2) == 0, "threads": []int{1, 2, 4, 0}[rng.Intn(4)], "mono": false}
+			"measure": measure, "n": n, "d": d, "table": rng.Intn(2) == 0, "threads": []int{1, 2, 4, 0}[rng.Intn(4)], "mono": false,
+			"wrapt": []int{0, 0, 3, 5, 8, 60}[rng.Intn(6)], "wrapq": []int{0, 0, 4}[rng.Intn(3)], "crlft": rng.Intn(5) == 0}
 	}
 }
 
@@ -409,6 +426,15 @@ func init() {
 			s := mk()
 			if len(pool) > 0 && (rng.Intn(4) == 0 || (crowded && len(pool) >= 4)) {
 				s = pool[rng.Intn(len(pool))]
+				if crowded && rng.Intn(2) == 0 {
+					// same bin and distance, another ambiguity count (later members may be the less ambiguous ones)
+					b := []byte(s)
+					b[rng.Intn(w)] = 'N'
+					s = string(b)
+				}
+			}
+			if crowded && k == 0 {
+				s = joinSyms(qs[0].([]interface{})) // the query itself: a crowded 'same' bin
 			}
 			pool = append(pool, s)
 			ts[k] = symList(s)
